@@ -250,6 +250,19 @@ enum Kind {
   KIND_A = 1;
   KIND_B = 2;
 }
+message Mover {
+  string s = 1;
+  int32 n = 2;
+  string gone2 = 3;
+}
+message Sib {
+  string s = 1;
+  int32 k = 2;
+  message SibInner {
+    string t = 1;
+    int32 u = 2;
+  }
+}
 `,
 		"b/v1/y.proto": `syntax = "proto3";
 package b.v1;
@@ -261,6 +274,22 @@ service Api {
   rpc Get(Req) returns (Resp);
   rpc Del(Req) returns (Resp);
 }
+message ToImp {
+  string s = 1;
+  int32 n = 2;
+}
+service Mv {
+  rpc One(Req) returns (Resp);
+  rpc Two(Req) returns (Resp);
+}
+message Card {
+  repeated string r = 1;
+  string ct = 2 [ctype = CORD];
+}
+`,
+		breakingDeletedFile: `syntax = "proto3";
+package b.v1;
+message OnlyOld { string s = 1; }
 `,
 		"c/v1/z.proto": `syntax = "proto3";
 package c.v1;
@@ -272,22 +301,61 @@ enum ZKind {
   ZKIND_UNSPECIFIED = 0;
   ZKIND_A = 1;
 }
+enum ZMoved {
+  ZMOVED_UNSPECIFIED = 0;
+  ZMOVED_A = 1;
+}
+message ZMsg {
+  string s = 1;
+  int32 n = 2;
+}
 `,
 	}
 	new = map[string]string{
 		"a/v1/x.proto": `syntax = "proto3";
 package a.v1;
 import "c/v1/z.proto";
+import "c/v1/bm.proto";
 message Keep {
   string renamed = 1;
   string count = 2;
   string many = 4;
   c.v1.Zed zed = 5;
   string ct = 6 [ctype = STRING_PIECE];
+  b.v1.ToImp to_imp = 7;
 }
 enum Kind {
   KIND_UNSPECIFIED = 0;
   KIND_A = 1;
+}
+`,
+		// Sib moved to a sibling file of the same directory
+		"a/v1/x2.proto": `syntax = "proto3";
+package a.v1;
+message Sib {
+  string s = 1;
+  repeated int32 k = 2;
+  message SibInner {
+    string t = 1;
+  }
+}
+`,
+		// ZMoved and ZMsg moved here from the import-only file c/v1/z.proto
+		"a/v1/zm.proto": `syntax = "proto3";
+package c.v1;
+enum ZMoved {
+  ZMOVED_UNSPECIFIED = 0;
+}
+message ZMsg {
+  string s = 1;
+}
+`,
+		// service Mv moved here from b/v1/y.proto
+		"a/v1/svc.proto": `syntax = "proto3";
+package b.v1;
+import "b/v1/y.proto";
+service Mv {
+  rpc One(Req) returns (Resp);
 }
 `,
 		"b/v1/y.proto": `syntax = "proto3";
@@ -297,6 +365,25 @@ message Req2 { string id = 1; }
 message Resp { string id = 1; }
 service Api {
   rpc Get(Req2) returns (stream Resp);
+}
+message Card {
+  string r = 1;
+  string ct = 2 [ctype = STRING_PIECE];
+}
+`,
+		// Mover moved here from a/v1/x.proto (another directory)
+		"b/v1/m.proto": `syntax = "proto3";
+package a.v1;
+message Mover {
+  string s = 1;
+  string n = 2;
+}
+`,
+		// ToImp moved from the target file b/v1/y.proto into a file that is only imported
+		"c/v1/bm.proto": `syntax = "proto3";
+package b.v1;
+message ToImp {
+  string s = 1;
 }
 `,
 		"c/v1/z.proto": `syntax = "proto3";
@@ -310,6 +397,64 @@ enum ZKind {
 `,
 	}
 	return old, new
+}
+
+// breakingDeletedFile exists only in the old image: FILE_NO_DELETE is reported without a current
+// location (empty path), its only location is the against file.
+const breakingDeletedFile = "b/v1/old.proto"
+
+// movedDecl is a top-level declaration of the breaking fixture whose file differs between the old and
+// the new image (same package, same full name): every annotation on it (or on something inside it)
+// has its current location in NewPath and its against location in OldPath.
+type movedDecl struct {
+	Header  string `json:"header"` // first line of the declaration in the new file, e.g. "message Mover {"
+	NewPath string `json:"new_path"`
+	OldPath string `json:"old_path"`
+	// Start, End: 1-based line span in the new file (filled by locateMoved)
+	Start int `json:"start"`
+	End   int `json:"end"`
+}
+
+func breakingMoved() []movedDecl {
+	return []movedDecl{
+		{Header: "message Mover {", NewPath: "b/v1/m.proto", OldPath: "a/v1/x.proto"},  // target -> target, other directory
+		{Header: "message Sib {", NewPath: "a/v1/x2.proto", OldPath: "a/v1/x.proto"},   // target -> target, same directory
+		{Header: "enum ZMoved {", NewPath: "a/v1/zm.proto", OldPath: "c/v1/z.proto"},   // import-only -> target
+		{Header: "message ZMsg {", NewPath: "a/v1/zm.proto", OldPath: "c/v1/z.proto"},  // import-only -> target
+		{Header: "service Mv {", NewPath: "a/v1/svc.proto", OldPath: "b/v1/y.proto"},   // target -> target, other directory
+		{Header: "message ToImp {", NewPath: "c/v1/bm.proto", OldPath: "b/v1/y.proto"}, // target -> import-only
+	}
+}
+
+// locateMoved fills the line spans from the text of the new files (top-level declarations, closing
+// brace in column 0) and verifies that the declaration exists in the old file it is said to come from.
+func locateMoved(old, new map[string]string) ([]movedDecl, error) {
+	moved := breakingMoved()
+	for i := range moved {
+		m := &moved[i]
+		lines := strings.Split(new[m.NewPath], "\n")
+		for n, l := range lines {
+			if l == m.Header {
+				m.Start = n + 1
+				for k := n + 1; k < len(lines); k++ {
+					if lines[k] == "}" {
+						m.End = k + 1
+						break
+					}
+				}
+			}
+		}
+		if m.Start == 0 || m.End == 0 {
+			return nil, fmt.Errorf("moved declaration %q not found in new %s", m.Header, m.NewPath)
+		}
+		if !strings.Contains(old[m.OldPath], "\n"+m.Header+"\n") {
+			return nil, fmt.Errorf("moved declaration %q not found in old %s", m.Header, m.OldPath)
+		}
+		if strings.Contains(new[m.OldPath], "\n"+m.Header+"\n") {
+			return nil, fmt.Errorf("moved declaration %q still present in new %s", m.Header, m.OldPath)
+		}
+	}
+	return moved, nil
 }
 
 func buildPlain(ctx context.Context, files map[string]string, targets []string) (bufimage.Image, map[string]bool, error) {
